@@ -293,3 +293,72 @@ func init() {
 	regLib("sort.Sort", libModels["sort.Slice"].apply).writes = libModels["sort.Slice"].writes
 	regLib("sort.Stable", libModels["sort.Slice"].apply).writes = libModels["sort.Slice"].writes
 }
+
+// ---- k8s.io/utils/lru.Cache as a ghost map (per cache object): entries appear only through Add, vanish through
+// Remove or eviction at Add of another key; Get is a plain lookup. The cache's own mutex is trusted. ----
+
+func (x *FnExec) lruHeaps(st *State) (dom, val string) {
+	return x.heapGet(st, "|LruDom|", "(Array Ref (Array Iface Bool))"), x.heapGet(st, "|LruVal|", "(Array Ref (Array Iface Iface))")
+}
+
+func init() {
+	lruName := "(*k8s.io/utils/lru.Cache)."
+	regLib(lruName+"Get", func(x *FnExec, fr *frame, n *node, in ssa.Instruction, c *ssa.CallCommon, args []Val, reach, hint string) (Val, error) {
+		dom, val := x.lruHeaps(n.st)
+		ok := x.q.define(hint+"_ok", "Bool", sel(sel(dom, args[0].S), args[1].S))
+		v := x.q.define(hint+"_v", "Iface", ite(ok, sel(sel(val, args[0].S), args[1].S), "inil"))
+		x.trusted["lru.Cache: ghost map model (Get = lookup; Add inserts and may evict other keys; Remove deletes)"] = true
+		return Val{T: resultType(in, c), Tuple: []Val{{S: v, T: types.Universe.Lookup("any").Type()}, {S: ok, T: types.Typ[types.Bool]}}}, nil
+	})
+	regLib(lruName+"Add", func(x *FnExec, fr *frame, n *node, in ssa.Instruction, c *ssa.CallCommon, args []Val, reach, hint string) (Val, error) {
+		st := n.st
+		dom, val := x.lruHeaps(st)
+		cref, k, v := args[0].S, args[1].S, args[2].S
+		// other keys may be evicted: new domain is a subset of the old one plus k
+		nd := x.q.freshConst(hint+"_dom", "(Array Iface Bool)")
+		q := "|k?lru|"
+		x.q.assert(fmt.Sprintf("(forall ((%s Iface)) (! (=> (select %s %s) (or (= %s %s) (select (select %s %s) %s))) :pattern ((select %s %s))))", q, nd, q, q, k, dom, cref, q, nd, q))
+		x.q.assert(sel(nd, k))
+		x.heapSet(st, "|LruDom|", "(Array Ref (Array Iface Bool))", sto(dom, cref, nd))
+		x.heapSet(st, "|LruVal|", "(Array Ref (Array Iface Iface))", sto(val, cref, sto(sel(val, cref), k, v)))
+		return Val{T: resultType(in, c)}, nil
+	}).writes = func(x *FnExec, c *ssa.CallCommon, out map[string]bool) {
+		x.q.heapDecl("|LruDom|", "(Array Ref (Array Iface Bool))")
+		x.q.heapDecl("|LruVal|", "(Array Ref (Array Iface Iface))")
+		out["|LruDom|"], out["|LruVal|"] = true, true
+	}
+	regLib(lruName+"Remove", func(x *FnExec, fr *frame, n *node, in ssa.Instruction, c *ssa.CallCommon, args []Val, reach, hint string) (Val, error) {
+		st := n.st
+		dom, _ := x.lruHeaps(st)
+		x.heapSet(st, "|LruDom|", "(Array Ref (Array Iface Bool))", sto(dom, args[0].S, sto(sel(dom, args[0].S), args[1].S, "false")))
+		return Val{T: resultType(in, c)}, nil
+	}).writes = func(x *FnExec, c *ssa.CallCommon, out map[string]bool) {
+		x.q.heapDecl("|LruDom|", "(Array Ref (Array Iface Bool))")
+		out["|LruDom|"] = true
+	}
+	// spec-level views: lruHas(cache, key string), lruStrs(cache, key string) []string, lruIsStrs(cache, key string)
+	boxStr := func(x *FnExec, s string) string {
+		box, unbox := x.q.boxFn(types.Typ[types.String])
+		b := fmt.Sprintf("(%s %s)", box, s)
+		x.q.assert(and(eq(fmt.Sprintf("(%s %s)", unbox, b), s), eq("(itag "+b+")", fmt.Sprint(x.q.typeID(types.Typ[types.String]))), not(eq(b, "inil"))))
+		return b
+	}
+	strSliceT := types.NewSlice(types.Typ[types.String])
+	specLibFuncs["lruHas"] = func(x *FnExec, c *evalCtx, args []Val) (Val, error) {
+		dom, _ := x.lruHeaps(c.state())
+		return Val{S: sel(sel(dom, args[0].S), boxStr(x, args[1].S)), T: types.Typ[types.Bool]}, nil
+	}
+	specLibFuncs["lruStrs"] = func(x *FnExec, c *evalCtx, args []Val) (Val, error) {
+		_, val := x.lruHeaps(c.state())
+		_, unbox := x.q.boxFn(strSliceT)
+		return Val{S: fmt.Sprintf("(%s %s)", unbox, sel(sel(val, args[0].S), boxStr(x, args[1].S))), T: strSliceT}, nil
+	}
+	specLibFuncs["lruIsStrs"] = func(x *FnExec, c *evalCtx, args []Val) (Val, error) {
+		_, val := x.lruHeaps(c.state())
+		v := sel(sel(val, args[0].S), boxStr(x, args[1].S))
+		return Val{S: and(not(eq(v, "inil")), eq("(itag "+v+")", fmt.Sprint(x.q.typeID(strSliceT))), fmt.Sprintf("(slice_ok (%s %s))", func() string { _, u := x.q.boxFn(strSliceT); return u }(), v)), T: types.Typ[types.Bool]}, nil
+	}
+	regLib("github.com/google/uuid.NewString", func(x *FnExec, fr *frame, n *node, in ssa.Instruction, c *ssa.CallCommon, args []Val, reach, hint string) (Val, error) {
+		return x.havocVal(hint, resultType(in, c), reach), nil
+	})
+}
